@@ -178,6 +178,58 @@ theorem drop_lastLine (s : List Char) : s.drop (s.length - (lastLine s).length) 
   subst hs
   simp
 
+/-! ### from step-wise to global content preservation -/
+
+/-- the `lineBlank` flag can be read off the stripped text -/
+theorem lineBlank_of_strip (a : List Char) : ∀ b, lineBlank b a =
+    match (strip b a).getLast? with
+    | none => b
+    | some c => c == '\n' := by
+  induction a with
+  | nil => intro b; simp [strip, lineBlank]
+  | cons c cs ih =>
+    intro b
+    simp only [strip, lineBlank]
+    split
+    · rename_i hc
+      rw [ih true]
+      cases h : (strip true cs).getLast? with
+      | none =>
+        have : strip true cs = [] := List.getLast?_eq_none_iff.mp h
+        simp [this, hc]
+      | some d =>
+        obtain ⟨ys, hys⟩ := List.getLast?_eq_some_iff.mp h
+        rw [hys, ← List.cons_append, List.getLast?_append]; simp
+    · rename_i hc
+      split
+      · rename_i hb
+        have hb' : b = true := by simp at hb; exact hb.1
+        rw [ih true, hb']
+      · rw [ih false]
+        cases h : (strip false cs).getLast? with
+        | none =>
+          have : strip false cs = [] := List.getLast?_eq_none_iff.mp h
+          simp [this, hc]
+        | some d =>
+          obtain ⟨ys, hys⟩ := List.getLast?_eq_some_iff.mp h
+          rw [hys, ← List.cons_append, List.getLast?_append]; simp
+
+theorem contentEq_append (a a' b : List Char) (h : contentEq a a' = true) : contentEq (a ++ b) (a' ++ b) = true := by
+  simp only [contentEq, beq_iff_eq] at h ⊢
+  rw [strip_append, strip_append, lineBlank_of_strip a, lineBlank_of_strip a', h]
+
+theorem contentEq_trans (a b c : List Char) (h1 : contentEq a b = true) (h2 : contentEq b c = true) :
+    contentEq a c = true := by
+  simp only [contentEq, beq_iff_eq] at *; rw [h1, h2]
+
+theorem contentStep_ok (prev out t : List Char) (interp : Bool) (h : contentStep prev out t interp = .ok) :
+    contentEq out (prev ++ t) = true := by
+  unfold contentStep at h
+  split at h
+  · assumption
+  · simp only [] at h
+    split at h <;> simp at h
+
 end Witverif.Text.SourceSpec
 
 namespace Witverif.Text.Source
@@ -1301,5 +1353,83 @@ theorem monitor_model (ops : List Op) :
         rintro v (rfl | hv)
         · exact good_of_known _ hg (hc hsafe.1)
         · exact ih2 hsafe.2 v hv
+
+/-! ### global content preservation -/
+
+/-- the text an operation appends -/
+def textOf : Op → List Char
+  | .pushStr t => t
+  | .pushLit t => t
+  | .appendSrc o => o.s
+  | _ => []
+
+/-- the spec-side tracking state after a history -/
+def trackOps (tr : Track) (ops : List Op) : Track := ops.foldl (fun tr op => trackReq tr (reqOf op)) tr
+
+theorem sync_mono (tr : Track) (r : Req) (h : (trackReq tr r).sync = true) : tr.sync = true := by
+  cases r with
+  | text interp t => simpa [trackReq, Track.pieces, pieces_sync] using h
+  | indent n => simpa [trackReq] using h
+  | deindent n => simpa [trackReq] using h
+  | setIndent n => simpa [trackReq] using h
+  | append sub k =>
+    simp only [trackReq] at h
+    split at h
+    · simpa using h
+    · simp at h
+
+theorem trackOps_sync (ops : List Op) : ∀ tr, (trackOps tr ops).sync = true → tr.sync = true := by
+  induction ops with
+  | nil => intro tr h; exact h
+  | cons op ops ih => intro tr h; exact sync_mono _ _ (ih _ h)
+
+theorem contentEq_refl (a : List Char) : contentEq a a = true := by simp [contentEq]
+
+theorem step_content (st : Source) (op : Op) (st' : Source) (hs : st.step op = some st')
+    (hls : st.continuingLine = false → LineStart st.s) (hsafe : SafeStep st op) :
+    contentEq st'.s (st.s ++ textOf op) = true := by
+  cases op with
+  | pushStr t =>
+    simp only [step, Option.some.injEq] at hs; subst hs
+    exact contentStep_ok _ _ _ _ ((contentStep_model st t true hls).2 hsafe)
+  | pushLit t =>
+    simp only [step, Option.some.injEq] at hs; subst hs
+    exact contentStep_ok _ _ _ _ ((contentStep_model st t false hls).2 hsafe)
+  | indent n => simp only [step, Option.some.injEq] at hs; subst hs; simp [textOf, addIndent, contentEq]
+  | deindent n =>
+    simp only [step, deindent] at hs
+    split at hs
+    · simp only [Option.some.injEq] at hs; subst hs; simp [textOf, contentEq]
+    · simp at hs
+  | setIndent n => simp only [step, setIndent, Option.some.injEq] at hs; subst hs; simp [textOf, contentEq]
+  | appendSrc o => simp only [step, Option.some.injEq] at hs; subst hs; simp [textOf, appendSrc, contentEq]
+
+/-- Global form of (1): when no known loss is applicable at any step (and `append_src` is used on
+line boundaries) the buffer is the concatenation of the appended texts up to line-start whitespace. -/
+theorem content_global (ops : List Op) :
+    ∀ (st : Source) (tr : Track) (acc : List Char), (tr.sync = true → Rel st tr) → contentEq st.s acc = true →
+      WFOps ops → SafeFrom st ops → (trackOps tr ops).sync = true →
+      ∀ st', run st ops = some st' → contentEq st'.s (acc ++ ops.flatMap textOf) = true := by
+  induction ops with
+  | nil =>
+    intro st tr acc _ hacc _ _ _ st' hr
+    simp only [run, Option.some.injEq] at hr; subst hr; simpa using hacc
+  | cons op ops ih =>
+    intro st tr acc hrel hacc hwf hsafe hsync st' hr
+    have hsy : tr.sync = true := trackOps_sync (op :: ops) tr hsync
+    have hrl := hrel hsy
+    cases hs : st.step op with
+    | none => simp [run, hs] at hr
+    | some st1 =>
+      simp only [run, hs] at hr
+      simp only [SafeFrom, hs] at hsafe
+      have hop : ∀ o, op = .appendSrc o → Reachable o := fun o ho => hwf o (by simp [ho])
+      obtain ⟨_, hr', _⟩ := step_good st tr { indent := st.indent, s := st.s } ⟨rfl, rfl⟩ hrel op hop st1 hs
+      have hc := step_content st op st1 hs hrl.ls hsafe.1
+      have hacc' : contentEq st1.s (acc ++ textOf op) = true :=
+        contentEq_trans _ _ _ hc (contentEq_append _ _ _ hacc)
+      have := ih st1 (trackReq tr (reqOf op)) (acc ++ textOf op) hr' hacc' (fun o ho => hwf o (by simp [ho]))
+        hsafe.2 hsync st' hr
+      simpa [List.flatMap_cons, List.append_assoc] using this
 
 end Witverif.Text.Source
